@@ -160,7 +160,7 @@ def tlc(ctx, module, cfg, workers=16, simulate=None, depth=None, seed=None, time
         if m:
             r.generated = int(m.group(1))
             r.distinct = max(r.distinct, 1)
-        m = re.match(r"^Error: (Invariant|Action property|Temporal properties|Deadlock) ?(\S*)", line)
+        m = re.match(r"^Error: (Invariant|Action property|Temporal propert(?:y|ies)|Deadlock) ?(\S*)", line)
         if m:
             r.invariant = (m.group(2) or m.group(1)).rstrip(".")
             in_trace = True
@@ -295,6 +295,8 @@ def finish(ctx):
 
 
 def write_evidence(ctx, n_viol, known):
+    if ctx.replay_only is not None:
+        return      # a replay re-executes saved cases only; the evidence of the last quick / thorough run stays
     cov = dict(
         evaluations=ctx.evaluations,
         distinct_nontrivial=len(ctx.keys),
@@ -315,8 +317,9 @@ def write_evidence(ctx, n_viol, known):
     cov.update(ctx.extra)
     ev = dict(property_id=ctx.prop, tier=ctx.tier, seed=ctx.seed, level=ctx.level, coverage=cov,
               assumptions=ctx.assumptions, wall_s=round(time.time() - ctx.t0, 2), violations=n_viol)
-    os.makedirs(os.path.join(VERIF, "evidence"), exist_ok=True)
-    with open(os.path.join(VERIF, "evidence", ctx.prop + ".json"), "w") as f:
+    evdir = os.environ.get("VERIF_EVIDENCE_DIR", os.path.join(VERIF, "evidence"))   # mutation runs write elsewhere
+    os.makedirs(evdir, exist_ok=True)
+    with open(os.path.join(evdir, ctx.prop + ".json"), "w") as f:
         json.dump(ev, f, indent=1, sort_keys=True)
 
 
